@@ -44,13 +44,13 @@ def gen_cases(seed, tier):
     out = []
     for n in (1, 2, 3):
         for jobs in (0, 1, 2, 3, 4):
-            for mode in ("plain", "sleep", "barrier", "blocker"):
+            for mode in ("plain", "sleep", "barrier", "blocker", "unwind"):
                 out.append((n, jobs, mode))
     k = 60 if tier == "quick" else 1500
     for _ in range(k):
         n = r.choice([1, 2, 3, 4, 5, 8, 16])
         jobs = r.choice([0, 1, 2, 5, 9, 17, 40, 120])
-        out.append((n, jobs, r.choice(["plain", "sleep", "sleep", "barrier", "blocker"])))
+        out.append((n, jobs, r.choice(["plain", "sleep", "sleep", "barrier", "blocker", "unwind"])))
     return out
 
 
@@ -74,6 +74,8 @@ def run(o, ctx, tier, seed, replay=None):
             why = "shutdown did not return / jobs did not make progress in parallel (mode=%s, n=%s, jobs=%s)" % (d["mode"], d["n"], d["jobs"])
         elif any(x != "1" for x in runs):
             why = "a submitted job ran %s times" % sorted(set(runs))
+        elif d.get("doneatreturn") not in (None, d["jobs"]):
+            why = "the pool's shutdown%s returned when only %s of %s submitted jobs had finished" % (" (owner thread unwinding from a panic)" if d["mode"] == "unwind" else "", d["doneatreturn"], d["jobs"])
         evs = [] if d["ev"] == "e" else d["ev"].split(",")
         ct = canon_trace(evs)
         traces.append((c, a, "POOLTRACE n=%s ev=%s" % (d["n"], ",".join(ct))))
@@ -97,7 +99,7 @@ def run(o, ctx, tier, seed, replay=None):
 
 register("C13", lean=["Khttp.Props.C13", "Khttp.Props.C13Skeleton"], run=run, search=False,
          rule="POOL scenarios on the real ThreadPool (cfg-gated VerifPool): pool sizes 1-3 x 0-4 jobs x {plain, sleeping, barrier of min(n,jobs) jobs (completes only if they really run in parallel), "
-              "blocker (job 0 waits until all others finished: needs the others to proceed on other workers)} enumerated, plus 60 (quick) / 1500 (thorough) random configurations up to 16 workers / 120 jobs. "
+              "blocker (job 0 waits until all others finished: needs the others to proceed on other workers), unwind (the pool's owner panics after submitting sleeping jobs: shutdown by an unwinding thread)} enumerated; in every scenario the number of finished jobs is read the moment the shutdown returns, plus 60 (quick) / 1500 (thorough) random configurations up to 16 workers / 120 jobs. "
               "The recorded synchronisation trace of every run is replayed through the model's step?; distinct_nontrivial = distinct canonical traces with more than 3 events.",
          assumptions=["jobs terminate and do not panic", "mpsc is an unbounded FIFO; Mutex gives mutual exclusion; join waits for the thread (std, modelled)",
                       "OS scheduling and fairness are not modelled: the interleavings seen are those the harness provokes (partial for 'every interleaving' on the real code; the theorems cover every interleaving of the model)"],
